@@ -91,6 +91,24 @@ def op_c01(args):
             pass
         except Exception as e:
             v.violate("from_code_raises", exc_sig(e), "twin compile: " + exc_detail(e))
+    # look-alike in the same file: only the line table differs (every line one further down) while
+    # the original code object is still alive
+    if cd is not None and not v.violations:
+        try:
+            look = lookalike(code, keep_filename=True)
+        except (ValueError, TypeError):
+            look = None
+        if look is not None:
+            try:
+                r3 = CodeData.from_code(look).to_code()
+                for path, field, detail in refs.ident_diff(look, r3, nan_bits=True, limit=3):
+                    if field == "co_lnotab":
+                        field = _classify_lnotab_diff(look, r3, path)
+                    v.violate("field_differs_after_lookalike", field, "same code with every line moved by one, same file: %s: %s" % (path, detail))
+                    break
+                v.features["lookalike_same_file_decodes"] += 1
+            except Exception as e:
+                v.violate("from_code_raises", exc_sig(e), "line-shifted look-alike: " + exc_detail(e))
     v.info["nontrivial"] = bool(agg["nested"] or agg["njump"] or agg["nent"] >= 2)
     return v.result()
 
@@ -229,13 +247,16 @@ def _get_code(args, v):
     return code
 
 
-def lookalike(code, shift=1):
+def lookalike(code, shift=1, keep_filename=False):
     """a code object that compares equal to `code` under code.__eq__ on 3.7-3.10 (which ignores the
     line table, the file name and the stack size) but whose lines are all shifted: decoding it after
     `code` must describe IT, not a remembered decode of the other one"""
     from ops_const import code_replace
-    consts = tuple(lookalike(k, shift) if isinstance(k, CodeType) else k for k in code.co_consts)
-    kw = {"co_consts": consts, "co_filename": code.co_filename + ".look"}
+    consts = tuple(lookalike(k, shift, keep_filename) if isinstance(k, CodeType) else k for k in code.co_consts)
+    kw = {"co_consts": consts}
+    if not keep_filename:
+        # keep_filename: ONLY the line table differs (a memo keyed on code equality + file name)
+        kw["co_filename"] = code.co_filename + ".look"
     if refs.AT310:
         t = code.co_linetable
         # first entry with a line: bump its delta
@@ -258,11 +279,19 @@ def op_c02(args):
     _program_features(code, v)
     nontrivial = _c02_compare(code, v, "")
     if not v.violations:
+        # same-file look-alike first: a later decode of an other-file look-alike may overwrite a memo entry
+        try:
+            look2 = lookalike(code, keep_filename=True)
+        except (ValueError, TypeError):
+            look2 = None
+        if look2 is not None:
+            v.features["lookalike_same_file_decodes"] += 1
+            _c02_compare(look2, v, "look-alike (same file, other line table) decoded while the original is alive: ")
         try:
             look = lookalike(code)
         except (ValueError, TypeError):
             look = None
-        if look is not None:
+        if look is not None and not v.violations:
             v.features["lookalike_decodes"] += 1
             _c02_compare(look, v, "look-alike decoded after the original: ")
     v.info["nontrivial"] = nontrivial
